@@ -1,28 +1,147 @@
-import KoordVerif.Model.C15
+import KoordVerif.Proofs.C15Forest
+/-
+C15 — property theorems (DESIGN.md §4 C15, Appendix A.7).
+
+Well-formedness of the recorded topology `s` (model state of the webhook's quotaTopology):
+  `Forest s` :=  one record per name ∧ no record named root
+               ∧ every parent is the root or a recorded quota marked is-parent
+               ∧ `Ranked` : ∃ rank, rank root = 0 ∧ rank (parent q) < rank q   (acyclic + rooted)
+               ∧ children map (quotaHierarchyInfo) = inverse of the parent links.
+FULL statement of DESIGN §4 C15 (not all of it is proved here):
+  accept_preserves_WF : WF s → (step d s op).2 = true → WF (step d s op).1   with
+  WF := Forest ∧ (min ≤ max ∧ keys(min) ⊆ keys(max) ∧ amounts ≥ 0) ∧ (Σ children min ≤ parent min, absent
+        allow-force-update / is-root requests) ∧ (max keys equal / min keys included along edges) ∧
+        (tree ids agree along edges) ∧ (namespace map = the accepted objects' annotations, injective).
+Proved below: the `Forest` part in full (`accept_preserves_WF_partial`, every request, every history,
+including acyclicity by the rank argument).  The remaining clauses (min/max, min-sum, keys, tree id,
+namespaces) are evaluated by the harness oracle on every generated history but have no Lean proof yet.
+Out of the model: a create request for an object NAMED koordinator-root-quota (hypothesis `NotRootAdd`).
+-/
 namespace KoordVerif.C15
 
+/-- a create request never carries the root's own name (see header). -/
+def NotRootAdd : Op → Prop
+  | .add q _ => q.name ≠ 0
+  | _ => True
+
+/-! ### 1. an accepted request keeps the forest well-formed (partial: structural clauses) -/
+
+theorem accept_preserves_WF_partial (d : Nat) (s : Topo) (op : Op) (hF : Forest s) (hop : NotRootAdd op)
+    (h : (step d s op).2 = true) : Forest (step d s op).1 := by
+  cases op with
+  | add q sw => exact forest_add hF hop h
+  | upd q sw hp => exact forest_upd hF h
+  | del n lp => exact forest_del hF h
+
+/-! ### 2. a rejected request leaves the recorded topology unchanged -/
+
 theorem reject_is_noop (d : Nat) (s : Topo) (op : Op) (h : (step d s op).2 = false) : (step d s op).1 = s := by
-  cases op <;> simp only [step] at h ⊢
-  · unfold validAdd at h ⊢; split <;> try rfl
-    split <;> try rfl
-    split <;> try rfl
-    split <;> try rfl
-    simp_all
-  · unfold validUpdate at h ⊢; simp only at h ⊢
-    split <;> try rfl
-    · simp_all
-    split <;> try rfl
-    split <;> try rfl
-    split <;> try rfl
-    split <;> try rfl
-    split <;> try rfl
-    simp_all
-  · unfold validDelete at h ⊢
-    split <;> try rfl
-    split <;> try rfl
-    split <;> try rfl
-    split <;> try rfl
-    split <;> try rfl
-    simp_all
+  cases op with
+  | add q sw =>
+    simp only [step] at h ⊢
+    unfold validAdd at h ⊢
+    repeat' split
+    all_goals first | rfl | simp_all
+  | upd q sw hp =>
+    simp only [step] at h ⊢
+    unfold validUpdate at h ⊢
+    simp only at h ⊢
+    repeat' split
+    all_goals first | rfl | simp_all
+  | del n lp =>
+    simp only [step] at h ⊢
+    unfold validDelete at h ⊢
+    repeat' split
+    all_goals first | rfl | simp_all
+
+/-! ### 3. every history: the forest invariant holds in every reachable state -/
+
+theorem history_forest (d : Nat) (ops : List Op) (hops : ∀ op ∈ ops, NotRootAdd op) :
+    ∀ s, Forest s → Forest (run d s ops) := by
+  induction ops with
+  | nil => intro s hs; exact hs
+  | cons op ops ih =>
+    intro s hs
+    simp only [run]
+    apply ih (fun o ho => hops o (List.mem_cons_of_mem _ ho))
+    cases hres : (step d s op).2 with
+    | true => exact accept_preserves_WF_partial d s op hs (hops op (List.mem_cons_self ..)) hres
+    | false => rw [reject_is_noop d s op hres]; exact hs
+
+theorem reachable_forest (d : Nat) (ops : List Op) (hops : ∀ op ∈ ops, NotRootAdd op) : Forest (run d init ops) :=
+  history_forest d ops hops init forest_init
+
+/-! ### 4. what `Ranked` means: no quota is its own proper ancestor -/
+
+theorem anc_rank_le {info : List QI} {r : Nat → Nat} (hr : ∀ q ∈ info, r q.parent < r q.name) {x y : Nat}
+    (h : Anc info x y) : r x ≤ r y := by
+  induction h with
+  | self => exact Nat.le_refl _
+  | up hf _ ih =>
+    have := hr _ (find_some hf).1
+    rw [(find_some hf).2] at this
+    omega
+
+theorem no_cycle (s : Topo) (hF : Forest s) (q : QI) (hq : q ∈ s.info) : ¬ Anc s.info q.name q.parent := by
+  obtain ⟨r, _, hr⟩ := hF.ranked
+  intro ha
+  have := anc_rank_le hr ha
+  have := hr q hq
+  omega
+
+/-- a re-parenting request that would close a cycle (new parent = the quota itself or one of its
+    descendants) is never accepted as a change. -/
+theorem cycle_rejected (d : Nat) (s : Topo) (q : QI) (sw hp : Bool) (hF : Forest s)
+    (hcyc : Anc s.info q.name q.parent) (h : (validUpdate d s q sw hp).2 = true) :
+    (validUpdate d s q sw hp).1 = s := by
+  rcases validUpdate_true h with hst | ⟨o, hfo, hq0, _, _, htopo, _⟩
+  · exact hst
+  · exfalso
+    obtain ⟨r, _, hr⟩ := hF.ranked
+    have hwalk := (hitsUp_iff_anc r hq0 hF.nonzero hr (s.info.length + 1) q.parent []
+      (by simp) (by simp) (by simp) (by simp)).mpr hcyc
+    have hp0 : q.parent ≠ 0 := by
+      intro e
+      have : ∀ z, z = 0 → ¬ Anc s.info q.name z := by
+        intro z hz ha
+        cases ha with
+        | self => exact hq0 hz
+        | up hf _ => exact hF.nonzero _ (find_some hf).1 ((find_some hf).2.trans hz)
+      exact this _ e hcyc
+    obtain ⟨_, _, hcase⟩ := topoCheck_true hq0 htopo
+    rcases hcase with ⟨h0, _⟩ | ⟨hpi, _, _⟩
+    · exact hp0 h0
+    · obtain ⟨_, _, _, hw⟩ := parentInfoOK_true hp0 hpi
+      rw [hw] at hwalk; cases hwalk
+
+/-! ### 5. a quota with children or (label-bound) pods is not deleted -/
+
+theorem delete_guard (s : Topo) (n : Nat) (labelPods : Bool) (hF : Forest s)
+    (h : (validDelete s n labelPods).2 = true) : (∀ c ∈ s.info, c.parent ≠ n) ∧ labelPods = false := by
+  obtain ⟨_, _, hnk, hlp, _⟩ := validDelete_true h
+  refine ⟨?_, hlp⟩
+  intro c hc e
+  exact hasKids_false hnk c.name ((hF.kidsOK _ _).mpr ⟨c, hc, rfl, e⟩)
+
+/-! ### non-vacuity: the hypotheses are met by a non-trivial history, and the guards do reject -/
+
+def exA : QI := { name := 3, parent := 0, isParent := true, tree := 0, force := false, treeRoot := false,
+                  mn := [some 4], mx := [some 8], ns := [7] }
+def exB : QI := { exA with name := 4, parent := 3, mn := [some 2], ns := [] }
+def exC : QI := { exA with name := 5, parent := 0, mn := [some 3], ns := [8] }
+def exS : Topo := run 1 init [.add exA false, .add exB false, .add exC false]
+
+example : (step 1 init (.add exA false)).2 = true := by decide
+example : exS.info.length = 3 ∧ exS.kids.length = 3 := by decide
+-- closing a cycle (A under its child B) and self-parenting are rejected
+example : (step 1 exS (.upd { exA with parent := 4 } false false)).2 = false := by decide
+example : (step 1 exS (.upd { exA with parent := 3 } false false)).2 = false := by decide
+-- a legitimate re-parenting (B from A to C) is accepted and changes the state
+example : (step 1 exS (.upd { exB with parent := 5 } false false)).2 = true ∧
+          (step 1 exS (.upd { exB with parent := 5 } false false)).1 ≠ exS := by decide
+-- deleting a quota with a child is rejected, deleting a leaf is accepted
+example : (step 1 exS (.del 3 false)).2 = false ∧ (step 1 exS (.del 4 false)).2 = true := by decide
+-- `Anc` is inhabited non-trivially: A is an ancestor of B in exS
+example : Anc exS.info 3 4 := Anc.up (a := exB) (by decide) Anc.self
 
 end KoordVerif.C15
